@@ -253,6 +253,110 @@ func frameLayout(c *core.Ctx) {
 	c.Check(wl.lo == rl.lo && wl.hi == rl.hi && wl.hi-wl.lo == 4, "length-bytes", wl.call.Pos(), "length in bytes [%d:%d) (writer) and [%d:%d) (reader)", wl.lo, wl.hi, rl.lo, rl.hi)
 	c.Check(wl.arrLen == rl.arrLen && wl.arrLen == wl.hi && wl.arrLen == 5, "prefix-size", wl.call.Pos(), "prefix arrays have %d and %d bytes", wl.arrLen, rl.arrLen)
 	c.Check(wl.flagIdx == rl.flagIdx && len(flagReads) == 1 && wl.flagIdx >= 0 && (wl.flagIdx < wl.lo || wl.flagIdx >= wl.hi), "flag-byte", wl.call.Pos(), "flags in byte %d (writer) / %d (reader), outside the length bytes", wl.flagIdx, rl.flagIdx)
+	// the zero-length shortcut of the reader must look at exactly the length bytes: helpers of the
+	// reader that take the prefix array and return bool (isSizeZeroPrefix), or comparisons in place
+	zeroTests := 0
+	for _, call := range astx.Calls(r.Body) {
+		f := astx.CalleeFunc(info, call)
+		if f == nil || p.Decl(f) == nil || len(call.Args) != 1 || astx.ObjOf(info, call.Args[0]) != rarr {
+			continue
+		}
+		sig := f.Type().(*types.Signature)
+		if sig.Results().Len() != 1 || !types.Identical(sig.Results().At(0).Type(), types.Typ[types.Bool]) {
+			continue
+		}
+		hfd := p.Decl(f)
+		param := info.Defs[hfd.Type.Params.List[0].Names[0]]
+		idx := map[int64]bool{}
+		decidable := true
+		ast.Inspect(hfd.Body, func(x ast.Node) bool {
+			switch y := x.(type) {
+			case *ast.IndexExpr:
+				if astx.ObjOf(info, y.X) != param {
+					return true
+				}
+				if v, ok := astx.ConstInt(info, y.Index); ok {
+					idx[v] = true
+					return true
+				}
+				// loop variable of `for i := a; i < b; i++`
+				iv := astx.ObjOf(info, y.Index)
+				found := false
+				for _, l := range loopsIn(hfd.Body) {
+					fs, ok := l.(*ast.ForStmt)
+					if !ok || !astx.Contains(fs, y) {
+						continue
+					}
+					init, ok1 := fs.Init.(*ast.AssignStmt)
+					cond, ok2 := fs.Cond.(*ast.BinaryExpr)
+					post, ok3 := fs.Post.(*ast.IncDecStmt)
+					if !ok1 || !ok2 || !ok3 || len(init.Lhs) != 1 || astx.ObjOf(info, init.Lhs[0]) != iv || astx.ObjOf(info, cond.X) != iv || post.Tok != token.INC {
+						continue
+					}
+					a, okA := astx.ConstInt(info, init.Rhs[0])
+					b, okB := astx.ConstInt(info, cond.Y)
+					if !okA || !okB {
+						continue
+					}
+					if cond.Op == token.LEQ {
+						b++
+					} else if cond.Op != token.LSS {
+						continue
+					}
+					for k := a; k < b; k++ {
+						idx[k] = true
+					}
+					found = true
+				}
+				if !found {
+					if rs := enclosingRange(hfd.Body, y); rs != nil && astx.ObjOf(info, rs.X) == param && rs.Key != nil && astx.ObjOf(info, rs.Key) == iv {
+						for k := int64(0); k < wl.arrLen; k++ {
+							idx[k] = true
+						}
+						found = true
+					}
+				}
+				if !found {
+					decidable = false
+				}
+			case *ast.SliceExpr:
+				if astx.ObjOf(info, y.X) == param {
+					lo, hi := int64(0), rl.arrLen
+					okB := true
+					if y.Low != nil {
+						lo, okB = astx.ConstInt(info, y.Low)
+					}
+					if y.High != nil && okB {
+						hi, okB = astx.ConstInt(info, y.High)
+					}
+					if !okB {
+						decidable = false
+					}
+					for k := lo; k < hi; k++ {
+						idx[k] = true
+					}
+				}
+			}
+			return true
+		})
+		zeroTests++
+		if !decidable {
+			c.Undecided("zero-size-test/"+f.Name(), hfd.Pos(), "indices read by %s not decidable", f.Name())
+			continue
+		}
+		exact := int64(len(idx)) == rl.hi-rl.lo
+		for k := rl.lo; k < rl.hi; k++ {
+			exact = exact && idx[k]
+		}
+		var got []string
+		for k := int64(0); k < rl.arrLen; k++ {
+			if idx[k] {
+				got = append(got, fmt.Sprint(k))
+			}
+		}
+		c.Check(exact, "zero-size-test/"+f.Name(), hfd.Pos(), "%s, which lets the reader skip the payload, reads prefix bytes {%s}; the length is in [%d:%d)", f.Name(), strings.Join(got, ","), rl.lo, rl.hi)
+	}
+	c.Note("%d prefix predicate(s) of the reader checked against the length bytes", zeroTests)
 	// length/payload coherence: the buffer whose Len() is written is the one copied afterwards
 	copied := ""
 	for _, call := range astx.Calls(w.Body) {
@@ -440,4 +544,15 @@ func dominatedByBranch(cond ssa.Value, want bool, at *ssa.BasicBlock) bool {
 	}
 	// short-circuit: cond used as an If in a block whose true successor evaluates further operands
 	return false
+}
+
+func enclosingRange(body ast.Node, inner ast.Node) *ast.RangeStmt {
+	var out *ast.RangeStmt
+	ast.Inspect(body, func(n ast.Node) bool {
+		if rs, ok := n.(*ast.RangeStmt); ok && astx.Contains(rs, inner) {
+			out = rs
+		}
+		return true
+	})
+	return out
 }
